@@ -19,7 +19,6 @@ NA = {
 }
 NA["C05"] = "validity, low-S and RFC 6979 equality of signatures and ECDH symmetry live in k256/ecdsa/rfc6979 (scalar multiplication, HMAC-DRBG): not encodable within reach; no partial check was built"
 NA["C08"] = "child-key arithmetic, xpub point addition and Base58Check strings are EC / big-number / string machinery outside both engines; the HMAC-argument layout alone was not built into a check"
-NA["C11"] = "ECDH, SHA-512, AES-CBC and HMAC are external primitives; the BIE1 framing / MAC-coverage glue would be decidable by the MIR executor with five oracles but was not built"
 DEFAULT_NA = "no solver-based check of this property returns verdicts in this framework yet (see DESIGN.md §5); not claimed"
 
 props = [json.loads(l) for l in open("/verif/properties.jsonl")]
